@@ -370,11 +370,13 @@ qb_rb_space_free(struct qb_ringbuffer_s * rb)
 	} else if (write_size < read_size) {
 		space_free = (read_size - write_size) - 1;
 	} else {
-		if (rb->notifier.q_len_fn && rb->notifier.q_len_fn(rb->notifier.instance) > 0) {
-			space_free = 0;
-		} else {
-			space_free = rb->shared_hdr->word_size;
-		}
+		/*
+		 * qb_rb_chunk_alloc() never lets the writer catch up with
+		 * the reader, so equal pointers always mean "empty". The
+		 * notifier's count says nothing here: in overwrite mode it
+		 * still includes the chunks that were dropped unread.
+		 */
+		space_free = rb->shared_hdr->word_size;
 	}
 
 	/* word -> bytes */
